@@ -60,6 +60,12 @@ func c03Gen(r *rand.Rand, tier string) []spec.Case {
 				add(proto, "partial:"+fmt.Sprint(k), "exit", k)
 			}
 		}
+		// a started plugin that had put more lines on its stdout together with the handshake line, and
+		// then ends by itself
+		for _, n := range []int{1, 2, 5} {
+			add(proto, "line-plus-more", "kill", n)
+			add(proto, "line-plus-more", "exit", n)
+		}
 		nrand := 6
 		if tier == "thorough" {
 			nrand = 1000
